@@ -30,9 +30,43 @@ class TaggedName(str):
         return "TaggedName(%s)" % str.__repr__(self)
 
 
+import enum  # noqa: E402
+
+
+class Kind(enum.Enum):
+    A1 = 1
+    B2 = 2
+    c3 = "three"
+
+
+class Level(enum.IntEnum):
+    A1 = 1
+    B2 = 2
+    c3 = 3
+
+
+class Word(enum.StrEnum):
+    A1 = "alpha"
+    B2 = "Beta"
+    c3 = "A1"
+
+
+class Perm(enum.Flag):
+    A1 = 1
+    B2 = 2
+    c3 = 4
+
+
+ENUMS = {"plain": Kind, "int": Level, "str": Word, "flag": Perm}
+
+
 def name_object(name):
     """Case description of a name -> the object stored on the node."""
     if isinstance(name, dict):
+        if "enum" in name:
+            # enum members as names (as in the repository's tests/test_enum.py): addressed by str(member), which is
+            # 'Kind.A1' for Enum and Flag, '1' for IntEnum and the value for StrEnum - never by the member's name
+            return list(ENUMS[name["enum"][0]])[name["enum"][1] % 3]
         if "int" in name:
             return name["int"]
         if "tup" in name:
